@@ -125,6 +125,44 @@ def run(ctx):
             ok, msg = exists(index, r[1], r[2])
             rows.append({"side": "emit", "kind": k, "via": who, "resolves_to": "{}.{}".format(r[1], r[2]), "exists": ok})
             ctx.ob("C03.dispatch", f, "{}({!r})".format(who, k), ok, msg, line=f.node.lineno)
+    # exmod passes the symbol's name to the emitter under a keyword it derives from the kind: the emitter must accept it
+    from ..dispatch import underlying_function
+
+    exmod_kinds = choices.get(("exmod", "--emit")) or ()
+    key_nodes = []
+    for n in iter_own(es.node):
+        if isinstance(n, ast.Dict):
+            for k_ in n.keys:
+                if k_ is not None and not isinstance(k_, ast.Constant):
+                    full = expand_aliases(es, k_)
+                    if any(isinstance(x, ast.Name) and x.id == "emit_name" for x in ast.walk(full)):
+                        key_nodes.append(full)
+    ctx.count("exmod_name_keyword_expressions", len(key_nodes))
+    for k in exmod_kinds:
+        r = eval_return(index, env, es, lam_assign[0].value, {"emit_name": k})
+        if r[0] != "attr":
+            continue  # reported above
+        tf, bound = underlying_function(index, r[1], r[2])
+        if tf is None:
+            continue
+        for kn in key_nodes:
+            try:
+                kw = env.in_module(es.mod, kn, {"emit_name": k})
+            except Unknown as x:
+                ctx.need(False, "cannot fold the keyword exmod passes the name under, for kind {!r}: {}".format(k, x))
+            ok = isinstance(kw, str) and (kw in tf.params and kw not in bound or tf.node.args.kwarg is not None)
+            rows.append({"side": "exmod", "kind": k, "name_keyword": kw, "emitter": tf.qual, "accepted": bool(ok)})
+            ctx.ob(
+                "C03.dispatch",
+                es,
+                "_emit_symbol({!r}) passes the name as a keyword the emitter accepts".format(k),
+                bool(ok),
+                ""
+                if ok
+                else "`exmod --emit {}` calls {}({}=...), which has no such parameter ({}): TypeError for every symbol, "
+                "nothing is generated".format(k, tf.short, kw, ", ".join(p_ for p_ in tf.params if p_.endswith("name") or p_ == "identifier")),
+                line=es.node.lineno,
+            )
     # sync --truth choices vs conformance table
     gt = index.func("cdd.shared.conformance.ground_truth")
     table = None
